@@ -214,6 +214,11 @@ func (ig *incGen) file(depth int, cmdSafe, allowAffix bool, feats map[string]boo
 		sb.WriteString(ind() + "##!> define " + defName + " " + core.Pick(r, "zz", `[0-9]+`, `(?:q|r)`, "yy", `[k-m]`) + fmt.Sprint(ig.n) + "\n")
 	}
 	words := ig.g.WordList(2 + r.Intn(5))
+	if allowAffix && !cmdSafe && core.Chance(r, 1, 10) {
+		// a file with exactly one entry, which is an alternation
+		words = []string{core.Pick(r, "foo|bar", "ab|cd", "select|union|drop")}
+		feats["inc-single-alternation-entry"] = true
+	}
 	for i, w := range words {
 		switch {
 		case core.Chance(r, 1, 6):
